@@ -39,6 +39,10 @@ def run(ctx):
         # symmetry
         p = dc.psi_tuple(c.get("psi"))
         sw = dict(c, s1=list(c["s2"]), s2=list(c["s1"]), psi=[p[2], p[3], p[0], p[1]])
+        if len(checks) % 2 and not isinstance(c.get("psi"), int) and c.get("psi") is not None:
+            # the 4 entries given as a list instead of a tuple (both are accepted)
+            checks.append(("symmetry (series and per-series psi swapped; psi as a list)", dict(c, psi_list=True),
+                           dict(sw, psi_list=True), "eq"))
         checks.append(("symmetry (series and per-series psi swapped)", c, sw, "eq"))
         # window
         w = c.get("window")
